@@ -176,7 +176,7 @@ Constructed == <<
   D("K-order", TChoice(<<Comp("x", TTag("C", 2, "I", Int0), "M"), Comp("x", TTag("C", 0, "I", TBool), "M"),
                          Comp("x", TTag("A", 9, "I", IA5), "M"), C(TNull)>>, FALSE, <<>>)),
   D("K-ext0", TChoice(<<C(I07), C(TBool)>>, TRUE, <<>>)),
-  D("K-ext2", TChoice(<<C(I07), C(TBool)>>, TRUE, <<C(IA5), C(TNull)>>)),
+  D("K-ext2", TChoice(<<C(I07), C(TBool)>>, TRUE, <<C(TNull), C(IA5)>>)),
   D("K-nest", TChoice(<<C(TRef("K-ib")), C(TNull), C(TSeq(<<C(I07)>>, FALSE, <<>>))>>, FALSE, <<>>)),
   D("K-rec", TChoice(<<C(I07), Comp("x", TTag("C", 0, "E", TRef("K-rec")), "M")>>, FALSE, <<>>)),
   D("L-int", TSeqOf(Int0, CNone)),
@@ -213,7 +213,7 @@ CommonDefs == <<
   D("Q-nest", TSeq(<<C(TSeq(<<C(I07), O(TBool)>>, FALSE, <<>>)), C(TSeqOf(I07, CNone))>>, FALSE, <<>>)),
   D("Q-rec", TSeq(<<C(I07), O(TRef("Q-rec"))>>, FALSE, <<>>)),
   D("W-mm", TSet(<<C(Int0), C(TBool), O(IA5)>>, FALSE, <<>>)),
-  D("K-ext2", TChoice(<<C(I07), C(TBool)>>, TRUE, <<C(IA5), C(TNull)>>)),
+  D("K-ext2", TChoice(<<C(I07), C(TBool)>>, TRUE, <<C(TNull), C(IA5)>>)),
   D("K-nest", TChoice(<<C(TRef("K-ib")), C(TNull), C(TSeq(<<C(I07)>>, FALSE, <<>>))>>, FALSE, <<>>)),
   D("L-ref", TSeqOf(TRef("K-ib"), CNone)),
   D("M-seq", TSetOf(TSeq(<<C(I07), O(TBool)>>, FALSE, <<>>), CNone)),
